@@ -2,7 +2,10 @@
 """Runs every registered check against every confirmed seeded change (applied to /repo and reverted straight afterwards)
 and records which checks fire in seeded/<id>/meta.json (detected_by) and seeded/MATRIX.md."""
 import glob, json, os, subprocess, sys
-props = subprocess.run(["/verif/bin/sthlint", "-list"], capture_output=True, text=True).stdout.split()
+import shutil
+BIN = "/tmp/sthlint_matrix"
+shutil.copy("/verif/bin/sthlint", BIN)
+props = subprocess.run([BIN, "-list"], capture_output=True, text=True).stdout.split()
 claimed = [c["property_id"] for c in json.load(open("/verif/MANIFEST.json"))["checks"]]
 only = sys.argv[1:]
 rows = []
@@ -22,7 +25,7 @@ for d in sorted(glob.glob("/verif/seeded/*/")):
             meta["detected_by"] = None; meta["note"] = "patch no longer applies to /repo HEAD: " + r.stderr.strip()[:200]
         else:
             for p in claimed:
-                out = subprocess.run(["timeout", "600", "/verif/bin/sthlint", "-property", p, "-no-evidence", "-repo", WT], capture_output=True, text=True).stdout
+                out = subprocess.run(["timeout", "600", BIN, "-property", p, "-no-evidence", "-repo", WT, "-verif", "/verif"], capture_output=True, text=True).stdout
                 keys = [l[4:].split(" | ")[0] for l in out.splitlines() if l.startswith("BAD ")]
                 if "engine/undecided" in out: keys.append("engine/undecided")
                 if keys: fired[p] = keys[:4]
